@@ -222,7 +222,7 @@ fn main() {
             match r.violation {
                 Some(v) => {
                     println!("REPLAY class={} detail={}", v.class, v.detail);
-                    if v.class == rf.violation.class {
+                    if runner::same_class(&v.class, &rf.violation.class) {
                         println!("REPRODUCED property={} class={}", rf.property, v.class);
                         1
                     } else {
